@@ -7,9 +7,12 @@
       (any commutative ring: the dictionary `ops` with ring laws).
    3. The model's fold `sum = sum + signature * product` over Heap's order is that sum, hence
       det_tensor / det_matrix = Some (detc ...) for square inputs; absence <-> not square. *)
-From Coq Require Import List Arith Lia Ring Bool Sorted Permutation.
+From Coq Require Import List Arith Lia Ring Bool Sorted Permutation ZArith QArith.
 From EasyML Require Import Base.Sx Model.Num Model.Perms Model.LinAlg.
 Import ListNotations.
+Close Scope Q_scope.
+Close Scope Z_scope.
+Open Scope nat_scope.
 
 (* ------------------------------------------------------------------ list facts *)
 Lemma length_del {A} j (l : list A) : j < length l -> length (del j l) = length l - 1.
@@ -584,3 +587,12 @@ Proof.
   reflexivity.
 Qed.
 End Structure.
+
+(* the executable model on concrete 3 x 3 inputs over the exact rationals / the prime field of
+   the harness *)
+Example model_runs :
+  det_tensor Qops [[2; 0; 1]; [1; 3; 2]; [1; 1; 1]]%Q = Some 0%Q /\
+  det_matrix Qops [[2; 0; 1]; [1; 3; 2]; [1; 1; 2]]%Q = Some 6%Q /\
+  inverse_tensor Fpops [[2; 1]; [1; 1]]%Z = Some [[1; 2147483646]; [2147483646; 2]]%Z /\
+  length (heap_perms 4) = 24.
+Proof. vm_compute. repeat split. Qed.
